@@ -56,3 +56,24 @@ def initSys (taken : List Nat) (k : Nat) : Sys :=
   { taken := taken, created := [], procs := List.replicate k {} }
 
 end TempDir
+
+/-! ### the same loop one level down: the directory listing is a list of NAMES
+
+`create_temp_dir` never reads the listing; what decides is whether `mkdir("tmp" + str(i))` finds that exact
+name.  Entries that merely look like numbered directories (`tmp01`, `tmp1.bak`, `Tmp1`, `tmp`) are just other
+names. -/
+namespace TempDir
+
+def dirName (i : Nat) : String := "tmp" ++ toString i
+
+def seqLoopN (names : List String) (faults : Nat → Option Nat) : Nat → Nat → Except Nat Nat
+  | 0, i => .ok i            -- fuel exhausted (proved unreachable for fuel > |names|)
+  | fuel + 1, i =>
+    match faults i with
+    | some e => .error e
+    | none => if names.contains (dirName i) then seqLoopN names faults fuel (i + 1) else .ok i
+
+def createTempDirN (names : List String) (faults : Nat → Option Nat) : Except Nat Nat :=
+  seqLoopN names faults (names.length + 1) 1
+
+end TempDir
